@@ -457,6 +457,9 @@ def check_restored(m, k3):
             if not any(_is_field_load(f, x, 'cstl_dlist', 'size') and ((op == 'ule' and const_int(y) == 0) or (op == 'eq' and const_int(y) == 0)) for (op, x, y) in facts):
                 bad.append('the return at %s is not under size == 0' % r.loc())
         unl = [c for c in pf.all_insts() if c.op == 'call' and c.callee and m.pfn(c.callee) is not None and _decrements(m.pfn(c.callee), 'cstl_dlist', 'size', m)]
+        # ... or the decrement is made by the loop itself, next to a pure link helper
+        is_size = listrules.field_addr_pred(m, pf, 'cstl_dlist', 'size')
+        unl += [s2 for s2 in pf.all_insts() if s2.op == 'store' and is_size(s2.o[1]) and unit_step(pf, s2.o[0])[1] == -1]
         latches = [(p, b) for b in pf.blocks for p in b.pred if pf.dominates_block(b, p)]
         if len(unl) != 1 or not latches or not all(pf.dominates_block(unl[0].block, p) for p, _ in latches):
             bad.append('the loop does not unlink exactly one node per iteration through the size-decrementing primitive')
